@@ -33,6 +33,7 @@ pub fn main(tier: Tier, seed: u64) -> i32 {
     let mut jobs = vec![];
     let mut bases: Vec<(usize, Vec<Vec<polytune_server_core::Policy>>, Vec<Ev>)> = vec![];
     let xbudget = Budget::new(if tier.is_thorough() { 1800.0 } else { 20.0 });
+    let mut fail_keys: Vec<(usize, Vec<crate::srv::RpcKey>)> = vec![];
     let mut coord_states = 0u64;
     let mut coord_capped = false;
     for (ci, (n, leader, consts, outs)) in cfgs.iter().enumerate() {
@@ -76,6 +77,24 @@ pub fn main(tier: Tier, seed: u64) -> i32 {
                 }
             }
         }
+        // a coordination RPC of the party fails (transport error) and the cancel arrives right after:
+        // the error notification and the cancel must not add up to two notifications
+        {
+            let keys: Vec<crate::srv::RpcKey> = base.history.iter().filter_map(|e| if let Ev::Deliver(k) = e { if k.kind != crate::srv::Kind::Msg { Some(*k) } else { None } } else { None }).collect();
+            for (fi, key) in keys.iter().enumerate().take(50) {
+                let pos = base.history.iter().position(|e| *e == Ev::Deliver(*key)).unwrap_or(0);
+                // ... or the cancel is already waiting (the RPC is still pending) when the RPC fails
+                for oy in 0..2u8 {
+                    jobs.push((bases.len(), key.from as usize, pos, oy, 200 + fi as u8));
+                }
+                for d in 0..4usize {
+                    for oy in 0..2u8 {
+                        jobs.push((bases.len(), key.from as usize, pos + d, oy, 100 + fi as u8));
+                    }
+                }
+            }
+            fail_keys.push((bases.len(), keys));
+        }
         bases.push((ci, pols.clone(), base.history.clone()));
         // every reachable coordination state (all orders of schedule calls and of validate / run /
         // constants deliveries and replies, up to commutation of independent events): cancel right
@@ -104,12 +123,22 @@ pub fn main(tier: Tier, seed: u64) -> i32 {
         let (ci, pols, base) = &bases[*bi];
         let (n, _, _, _) = &cfgs[*ci];
         let mut injections = vec![];
-        if *pre > 0 {
+        let mut fail_after_cancel = None;
+        if *pre >= 200 {
+            let key = fail_keys.iter().find(|f| f.0 == *bi).map(|f| f.1[*pre as usize - 200]).unwrap();
+            fail_after_cancel = Some((*at, Ev::Fail(key)));
+        } else if *pre >= 100 {
+            let key = fail_keys.iter().find(|f| f.0 == *bi).map(|f| f.1[*pre as usize - 100]).unwrap();
+            let pos = base.iter().position(|e| *e == Ev::Deliver(key)).unwrap_or(0);
+            injections.push((pos, Ev::Fail(key)));
+        } else if *pre > 0 {
             injections.push((*at, Ev::Stray { pol: 0, party: *party as u8, cmd: pre_menu(*n)[*pre as usize - 1].clone() }));
         }
         injections.push((*at, Ev::Cancel { pol: 0, party: *party as u8 }));
+        injections.extend(fail_after_cancel);
         let walk = Walk { injections, prefer: base.clone(), max_steps: 10_000, output_yields: *oy, ..Default::default() };
-        run_walk(*n, 1, pols.clone(), walk, MsgPolicy::Explicit, crate::exec::mix(seed, 1500 + *ci as u64))
+        // the failed-RPC walks deliver MPC messages eagerly (they end in the coordination phase)
+        run_walk(*n, 1, pols.clone(), walk, if *pre >= 100 { MsgPolicy::Eager } else { MsgPolicy::Explicit }, crate::exec::mix(seed, 1500 + *ci as u64))
     });
     let mut states = 0u64;
     let mut transitions = 0u64;
@@ -129,7 +158,7 @@ pub fn main(tier: Tier, seed: u64) -> i32 {
         transitions += r.history.len() as u64;
         rep.evaluations += 1;
         let snap = &r.snapshot;
-        let desc = format!("n={n} leader={leader} consts_from={consts:?} outputs={outs:?}: cancel party {party} after event #{at}, output suspends {oy}x{}", if *pre > 0 { format!(", preceded by the invalid command {:?}", pre_menu(*n)[*pre as usize - 1]) } else { String::new() });
+        let desc = format!("n={n} leader={leader} consts_from={consts:?} outputs={outs:?}: cancel party {party} after event #{at}, output suspends {oy}x{}", if *pre >= 200 { format!(", while the party's coordination RPC #{} is pending, which then fails", *pre - 200) } else if *pre >= 100 { format!(", after the party's coordination RPC #{} failed", *pre - 100) } else if *pre > 0 { format!(", preceded by the invalid command {:?}", pre_menu(*n)[*pre as usize - 1]) } else { String::new() });
         let replay = json!({"kind":"srv15","n":n,"leader":leader,"consts_from":consts,"outputs":outs,"party":party,"at":at,"output_yields":oy,"history":r.history});
         let Some(c) = snap.calls.iter().find(|c| c.what == "cancel" && c.party as usize == *party) else {
             rep.violation("cancel_never_returned", desc.clone(), replay);
@@ -166,7 +195,8 @@ pub fn main(tier: Tier, seed: u64) -> i32 {
                     match outs_p.as_slice() {
                         [o] => {
                             let fine = match &o.result {
-                                Err(e) => e == "Cancelled",
+                                // after a failed RPC the party's one notification may be that error
+                                Err(e) => e == "Cancelled" || (*pre >= 100 && (e.contains("Error") || e.contains("error"))),
                                 Ok(_) => true,
                             };
                             if !fine {
@@ -199,7 +229,7 @@ pub fn main(tier: Tier, seed: u64) -> i32 {
     rep.set("coordination_states_with_cancel", json!(coord_states));
     rep.set("coordination_exploration_capped", json!(coord_capped));
     rep.exhaustive = Some(!coord_capped);
-    rep.rule = "per configuration (n, leader, constants, destinations): the default-order history with explicit MPC-message events is the base; cancel is injected for each party after every k-th event among coordination events, compile completions and (quick: every 4th, thorough: every) MPC message; the run is then continued until quiescence; at the base-history positions the cancel is also preceded by one command that is invalid for the party's state (run / duplicate schedule / further validate / message from an unknown sender); in addition (n=2; n=3 in the thorough tier) cancel is injected for each party in every reachable coordination state, i.e. after every history of schedule / validate / run / constants / compile events up to commutation of independent events, as enumerated by the C13 explorer; each injection is run with a client whose output call completes at once and with one that suspends once before completing (a notification counts as sent when the call has completed). states = injected histories executed on the real actors; non-trivial = cancel returned Ok".into();
+    rep.rule = "per configuration (n, leader, constants, destinations): the default-order history with explicit MPC-message events is the base; cancel is injected for each party after every k-th event among coordination events, compile completions and (quick: every 4th, thorough: every) MPC message; the run is then continued until quiescence; at the base-history positions the cancel is also injected right after each single failed coordination RPC of the party, and preceded by one command that is invalid for the party's state (run / duplicate schedule / further validate / message from an unknown sender); in addition (n=2; n=3 in the thorough tier) cancel is injected for each party in every reachable coordination state, i.e. after every history of schedule / validate / run / constants / compile events up to commutation of independent events, as enumerated by the C13 explorer; each injection is run with a client whose output call completes at once and with one that suspends once before completing (a notification counts as sent when the call has completed). states = injected histories executed on the real actors; non-trivial = cancel returned Ok".into();
     rep.assumptions = vec![
         "current-thread runtime; the two orders 'spawned MPC task polled before/after notify_one' are both reached through the compile-gate choice point".into(),
         "a multi-threaded runtime is not explored".into(),
